@@ -23,6 +23,7 @@ def check(ctx):
                       "as its default (shared with C14 R14.2)", 1)
     ctx.rule("R17.6", "in the stationary state the adaptive rule does run: it is gated by the solve-step counter only, and proposes min(1/2(dt + dt_init/1e-10), dt_max) = dt_max (shared with C12 R12.1)", 2)
     ctx.rule("R17.5", "the screening error is well defined for the current-free state: |dA| / max(|A|, positive constant) (shared with C13 R13.4)", 1)
+    ctx.rule("R17.8", "the library never rewrites the user's step settings (dt_max, dt_init, adaptive ...): the maximum the step may grow to is the one configured (shared with C12 R12.6)", 1)
     ctx.rule("R17.1", "at A = 0 the link variable is 1 and every row of psi_gradient / psi_laplacian (unpinned) sums to zero", 3)
     ctx.rule("R17.2", "solve_for_psi_squared(psi=1, |psi|^2=1, mu=0, eps=1, L psi=0) returns (1, 1) for all gamma>=0, u>0, dt>0", 2)
     ctx.rule("R17.3", "supercurrent Im(conj(psi) G psi) vanishes for constant psi at A=0; zero terminal currents give zero boundary flux", 2)
@@ -149,6 +150,9 @@ def check(ctx):
     c14.options_none(Shared(ctx, {"R14.2": "R17.7"},
                             consequence="a quiet run with unpinned terminals that is saved, reloaded and continued with the reloaded options pins psi = 0 on the "
                                         "terminals: the uniform state is no longer stationary"))
+    from ..effects import options_readonly
+    options_readonly(ctx, "R17.8", "an options object used once with adaptive=False comes back with dt_max overwritten by dt_init: switched to adaptive=True "
+                                   "for the next (quiet) run, the time step can never grow beyond dt_init")
     ctx.assume("exact arithmetic: whether floating-point row sums and sqrt((2z+1)^2) are exact is declined")
     ctx.assume("mu = 0 follows from the linear solve of a zero right-hand side (D.0 - B.0)")
     ctx.decline("'the adaptive time step grows to its maximum' needs dt_init/1e-10 >= 2 dt_max - dt, a relation between user options")
